@@ -1441,6 +1441,17 @@ package main
 //@   nopanic
 //@   safe
 
+// (and read back: state, marks and access modes of a topic description)
+//@ func pbTopicDescDeserialize(desc *pbx.TopicDesc) (out *MsgTopicDesc)
+//@   modifies inferred
+//@   ensures [C20] absent_stays_absent: desc == nil ==> out == nil
+//@   ensures [C20] state_and_marks_kept: desc != nil ==> out != nil && out.State == desc.State && out.Online == desc.Online && out.IsChan == desc.IsChan && out.SeqId == int(desc.SeqId) && out.ReadSeqId == int(desc.ReadId) && out.RecvSeqId == int(desc.RecvId) && out.DelId == int(desc.DelId)
+//@   ensures [C20] acs_kept: desc != nil && desc.Acs != nil ==> out.Acs != nil && out.Acs.Want == desc.Acs.Want && out.Acs.Given == desc.Acs.Given
+//@ func pbClientCredSerialize(in *MsgCredClient) (res *pbx.ClientCred)
+//@   modifies inferred
+//@   ensures [C20] absent_stays_absent: in == nil ==> res == nil
+//@   ensures [C20] method_value_response_kept: in != nil ==> res != nil && res.Method == in.Method && res.Value == in.Value && res.Response == in.Response
+
 // C20: a presence notice keeps its actor and its target apart on the wire.
 //@ func pbServPresSerialize(pres *MsgServerPres) (r *pbx.ServerMsg_Pres)
 //@   requires [C20] pres != nil
